@@ -91,6 +91,11 @@ PERIODIC = ["H", "He", "Li", "Be", "B", "C", "N", "O", "F", "Ne", "Na", "Mg", "A
             "Ta", "W", "Re", "Os", "Ir", "Pt", "Au", "Hg", "Tl", "Pb", "Bi", "Po", "At", "Rn"]
 
 
+def sympy_rat(fr):
+    import sympy as sp
+    return sp.Rational(fr.numerator, fr.denominator)
+
+
 def sig4(val, ref):
     """|val-ref| within half a unit of the 4th significant digit of ref"""
     val, ref = float(val), float(ref)
@@ -419,6 +424,38 @@ def run(rep, tier):
                   sample=(sym in ("H", "Au")))
         rep.check(sym in numd, "R20.3", "mass-num|" + sym, "symbol has an atomic number",
                   "Mass_ knows %s but EleNum_ does not" % sym, loc)
+    # ---------------------------------------------------------------- R20.4 unit-aware accessor
+    from vsa.alg import Fold, S
+    rep.rule("R20.4", "Elements::getCovRad(name, unit): the value returned for unit u is the tabulated Angstrom radius times "
+                      "the Angstrom->u factor (ang: 1, nm: conv::ang2nm, bohr: conv::ang2bohr), so results in different units are "
+                      "mutually consistent")
+    fc = F.one(E + "getCovRad")
+    rep.analysed(fc)
+    fo = Fold(fc).run()
+    unit_factor = {"ang": Fr(1), "nm": CONV_REF["ang2nm"], "bohr": CONV_REF["ang2bohr"]}
+    csub = {S("conv::" + k): sympy_rat(v[0]) for k, v in conv.items()}
+    seen_units = set()
+    for val, guards, node in fo.returns:
+        us = [u for g in guards for u in unit_factor if '"%s"' % u in fo.cond_str(g[0]) and g == guards[-1]]
+        if len(us) != 1:
+            continue
+        u = us[0]
+        seen_units.add(u)
+        import sympy as sp
+        tab = [a for a in val.free_symbols if a not in csub]
+        ok = False
+        fac = None
+        if len(tab) == 1:
+            q = sp.cancel(val / tab[0])
+            if not (q.free_symbols - set(csub)):
+                fac = float(q.subs(csub))
+                ok = sig4(fac, unit_factor[u]) and "CovRad_" in str(tab[0])
+        rep.check(ok, "R20.4", "covrad|" + u, "getCovRad(.., \"%s\") = table x %s" % (u, fac),
+                  "Elements::getCovRad returns the tabulated Angstrom radius times %s for unit '%s'; the Angstrom->%s factor is %.8g "
+                  "(radii in different units are inconsistent)" % (fac, u, u, float(unit_factor[u])), fc.loc(node), sample=True)
+    for u in unit_factor:
+        if u not in seen_units:
+            rep.broken("R20.4", "getCovRad: branch for unit '%s' not recognised" % u)
     rep.assumptions += ["decimal literals are read as exact decimals; agreement 'to four significant digits' is "
                         "|value-reference| <= half a unit of the 4th significant digit of the reference",
                         "reference values: CODATA 2018 (e, a0, u, Eh, kB, hbar, N_A), thermochemical calorie 4.184 J"]
